@@ -732,7 +732,7 @@ static void hist_desc (long seq, char *out, size_t sz)
 static void hist_body (long seq, void *arg)
 {
 	of_session_t *prev = NULL;
-	int i; long x = seq;
+	int i, prev_c = -1, prev_type = 0; long x = seq;
 	int overlap = (int) (seq & 1);
 	char sig[160];
 	(void) arg;
@@ -756,8 +756,16 @@ static void hist_body (long seq, void *arg)
 			snprintf (sig, sizeof sig, "hist|kind=pchk-differs-from-rfc5170|session=%s|position=%d|code=%d", type == OF_DECODER ? "decoder" : "encoder", i, c);
 			viol ("C05", sig);
 		}
-		if (prev) { of_release_codec_instance (prev); prev = NULL; }
-		if (overlap) prev = s; else of_release_codec_instance (s);
+		if (prev) {	/* the session opened before this one is asked again now that another one has been configured */
+			bool again = false;
+			if (prev_c >= 0 && NULLBASE && NULLBASE[(g_hfam == 2 ? 10 : 0) + prev_c * 2 + (prev_type == OF_DECODER)] >= 0
+			    && of_get_control_parameter (prev, OF_CRTL_LDPC_STAIRCASE_IS_LAST_SYMBOL_NULL, &again, sizeof again) == OF_STATUS_OK
+			    && (again ? 1 : 0) != NULLBASE[(g_hfam == 2 ? 10 : 0) + prev_c * 2 + (prev_type == OF_DECODER)]) {
+				snprintf (sig, sizeof sig, "hist|kind=last-symbol-null-answer-changed-by-a-later-session|session=%s|code=%d", prev_type == OF_DECODER ? "decoder" : "encoder", prev_c); viol ("C15", sig);
+			}
+			of_release_codec_instance (prev); prev = NULL;
+		}
+		if (overlap) { prev = s; prev_c = c; prev_type = type; } else of_release_codec_instance (s);
 	}
 	if (prev) of_release_codec_instance (prev);
 }
